@@ -137,7 +137,7 @@ def parseExp? : List Char → Option Int
       let (neg, ds) := takeSign r
       if ds ≠ [] ∧ ds.all isDigit then
         -- exponents beyond ±100000 behave alike (overflow / underflow); keep the numerals small
-        let n : Int := if ds.length > 6 then 1000000 else (natOfDigits ds : Int)
+        let n : Int := if natOfDigits ds > 1000000 then 1000000 else (natOfDigits ds : Int)
         some (if neg then -n else n)
       else none
     else none
